@@ -24,8 +24,8 @@ type C16Case struct {
 	Cuts   []int      `json:"cuts,omitempty"` // parser: chunking for ParseReader / decoder
 	Entry  string     `json:"entry,omitempty"`
 	// EOFData (reader entry points): the reader returns its last bytes together with io.EOF
-	EOFData bool `json:"eof_with_data,omitempty"`
-	Go     *GoCase    `json:"go,omitempty"`
+	EOFData bool    `json:"eof_with_data,omitempty"`
+	Go      *GoCase `json:"go,omitempty"`
 }
 
 var errSink = errors.New("injected sink failure")
